@@ -387,6 +387,9 @@ class Opaque:
     def __repr__(self):
         return f"Opaque<{self.kind}:{self.t}>"
 
+    def clone(self):
+        return self  # immutable: may stand in a heap cell (a container that became abstract)
+
 
 class ExcVal:
     def __init__(self, cls: str, args=()):
